@@ -622,6 +622,16 @@ class AffinePaths:
       "advance of the expanded sub-tree]")
 def s3(facts, tier):
     f = facts.fns.get("savefile::IntrospectionResult::total_index_impl")
+    if f is None:
+        # renamed / turned into an associated function: the self-recursive function that `total_index` calls
+        t = facts.fns.get("savefile::IntrospectionResult::total_index")
+        if t is not None:
+            for x in walk(t["body"]):
+                if x.get("k") == "Call":
+                    h = facts.fns.get((x.get("res") or {}).get("fn") or x.get("fn"))
+                    if h is not None and h["crate"] == "savefile" and h.get("body") and any(
+                            y.get("k") == "Call" and ((y.get("res") or {}).get("fn") or y.get("fn")) == h["id"] for y in walk(h["body"])):
+                        f = h
     g = facts.fns.get("savefile::Introspector::do_introspect")
     if f is None or g is None:
         return
